@@ -187,6 +187,7 @@ pub fn generate<W: Write>(prop: &str, tier: &str, seed: u64, out: &mut W) {
     match prop {
         "C16" => gen_c16(&mut r, thorough, out),
         "C01" => gen_c01(&mut r, thorough, out),
+        "C03" => gen_c03(&mut r, thorough, out),
         "C12" => gen_c12(&mut r, thorough, out),
         "C02" => gen_c02(&mut r, thorough, out),
         "C04" | "C05" => gen_map(&mut r, thorough, out),
@@ -964,6 +965,65 @@ fn gen_c12<W: Write>(r: &mut Rng, thorough: bool, out: &mut W) {
             "reads w={w} k={k} rc={rc} mc={mc} mq={mq} qf={qf} r1={} r2={}",
             files[0].join(","),
             files[1].join(",")
+        )
+        .unwrap();
+    }
+}
+
+
+// ------------------------------------------------------------------ C03: sample families through build + align
+
+fn gen_c03<W: Write>(r: &mut Rng, thorough: bool, out: &mut W) {
+    let rounds = if thorough { 8000 } else { 250 };
+    for _ in 0..rounds {
+        let k = *r.pick(&[5usize, 7, 9, 11, 15, 21, 31, 33, 41, 63]);
+        let w = if k <= 31 && r.chance(4, 5) { 64 } else { 128 };
+        let rc = r.below(2);
+        let h = (k - 1) / 2;
+        let nsamp = 2 + r.below(if thorough { 9 } else { 4 });
+        // an ancestor with 1-3 contigs, planted isolated and non-isolated substitutions
+        let ncontig = 1 + r.below(3);
+        let anc: Vec<Vec<u8>> = (0..ncontig).map(|_| { let l = k + r.below(4 * k); rand_acgt(r, l) }).collect();
+        let mut samples: Vec<Vec<Vec<u8>>> = vec![anc.clone(); nsamp];
+        for ci in 0..ncontig {
+            let len = anc[ci].len();
+            let nsites = r.below(4);
+            let mut pos = h + r.below(3);
+            for _ in 0..nsites {
+                if pos + h >= len {
+                    break;
+                }
+                let alt = *r.pick(&ACGT);
+                let ncar = 1 + r.below(nsamp - 1);
+                for _ in 0..ncar {
+                    let si = r.below(nsamp);
+                    samples[si][ci][pos] = alt;
+                }
+                // exact boundary distances: h+1 apart (isolated) or closer (not isolated)
+                pos += if r.chance(2, 3) { h + 1 + r.below(3) } else { 1 + r.below(h) };
+            }
+        }
+        // per-sample contig order and orientation
+        let text: Vec<String> = samples
+            .iter_mut()
+            .map(|recs| {
+                if r.chance(1, 3) {
+                    r.shuffle(recs);
+                }
+                recs.iter()
+                    .map(|c| if rc == 1 && r.chance(1, 3) { s(&revcomp(c)) } else { s(c) })
+                    .collect::<Vec<_>>()
+                    .join("+")
+            })
+            .collect();
+        let (t, ft) = if r.chance(2, 3) { (nsamp, "noconst") } else { (r.below(nsamp + 1), *r.pick(&FTS)) };
+        writeln!(
+            out,
+            "buildalign w={w} k={k} rc={rc} t={t} ft={ft} mask={} gaps={} famb={} samples={}",
+            r.below(2) * (t != nsamp) as usize,
+            r.below(2) * (t != nsamp) as usize,
+            r.below(2) * (t != nsamp) as usize,
+            text.join("|")
         )
         .unwrap();
     }
